@@ -16,6 +16,7 @@ import Props.C20
 import TextwrapModel.Indent
 import Lemmas.Smawk
 import Lemmas.OptimalBound
+import Lemmas.LinebreakTable
 namespace TW.C04
 
 /-! ### entry points without any panic site (total by construction) -/
@@ -239,5 +240,39 @@ theorem optimalFit_costs_usize (pen : Penalties) (lws : List Int) (frs : List (F
 * refill.rs `&line[..line.len() - without_prefix.len()]`, `&line[indent.len()..]` — C15 (see there)
 * indentation.rs `line.split_at(prefix.len())` — guarded by `starts_with(prefix)`; model: `List.drop`
 -/
+
+
+/-! ### without the `unicode_linebreak` contract either: the model runs the crate's own scan
+
+`TextwrapModel/Linebreak.lean` transcribes `unicode_linebreak::linebreaks` (a scan over
+`char_indices` driven by the pair table). For ANY tables the reported offsets are char boundaries
+(`ownOpps_boundary`), which is all the Unicode separator needs in order not to panic. The driver
+runs this scan on the tables regenerated from the crate next to the opportunities the real crate
+returned, on every case (`lb=0[…]` in the reply on a difference). -/
+
+-- @audit TW.ownOpps_boundary
+-- @audit TW.ownOpps_pairwise
+
+/-- **`wrap` and `fill` are total — both separators, both algorithms, built-in splitters — with no
+    contract of an external crate left**: `smawk`'s algorithm and `unicode_linebreak`'s scan are
+    inside the model, the latter for any pair table and any class function -/
+-- @audit TW.C04.wrap_total_own_all
+theorem wrap_total_own_all (env : Env) (T : LbTables) (henv : env.opps = ownOpps T) (pen : Penalties)
+    (o : Opts) (hb : Builtin o.splitter) (text : Text) :
+    (∃ ls, wrap env (ownMinima (α := Int) pen) o text = some ls) ∧
+    (∃ s, fill env (ownMinima (α := Int) pen) o text = some s) :=
+  wrap_total_own env pen o hb (Or.inr fun line => boundary_own env T henv (stripAnsi line)) text
+
+/-- … and so is `wrap_columns` -/
+-- @audit TW.C04.columns_total_own_all
+theorem columns_total_own_all (env : Env) (T : LbTables) (henv : env.opps = ownOpps T) (pen : Penalties)
+    (o : Opts) (hb : Builtin o.splitter) (text : Text) (columns : Nat) (hc : 1 ≤ columns)
+    (left middle right : Text) :
+    ∃ rows, wrapColumns env (ownMinima (α := Int) pen) o text columns left middle right = some rows :=
+  columns_total env _ (ownMinima_moShape pen) o hb
+    (Or.inr fun line => boundary_own env T henv (stripAnsi line)) text columns hc left middle right
+
+/-- the hypothesis is satisfiable: the environment the driver runs -/
+example : ∃ env : Env, env.opps = ownOpps lbTables := ⟨⟨cwUnicode, isAlnumStd, isWsStd, ownOpps lbTables⟩, rfl⟩
 
 end TW.C04
